@@ -9,8 +9,8 @@ independent Go visibility/import oracle.
 import os
 
 THEOREMS = ["IstioModel.C07.HostTheorems", "IstioModel.C07.VisTheorems", "IstioModel.C07.VSTheorems", "IstioModel.C07.ScopeTheorems", "IstioModel.C07.PortsTheorems",
-            "IstioModel.C07.RuleTheorems"]
-STREAMS = [("host", 3000, 60000), ("vis", 1500, 30000), ("scope", 3000, 60000)]
+            "IstioModel.C07.RuleTheorems", "IstioModel.C07.PolicyTheorems"]
+STREAMS = [("host", 3000, 60000), ("vis", 1500, 30000), ("scope", 2500, 50000)]
 
 
 def oracle(ctx, stream, case_lines, rep):
